@@ -21,7 +21,8 @@ GenNext ==
         \/ \E a \in Accts, to \in Accts, v \in 1..MaxAmt : v <= bal[a] + 1 /\ Transfer(a, to, v)
         \/ \E a \in Accts : Register(a)
         \/ \E a \in Accts : Unregister(a)
-        \/ \E a \in Accts : Claim(a)
+        \/ \E t \in Targets : Disqualify(t)
+        \/ \E a \in Accts, r \in 0..1 : Claim(a, r)
         \/ \E p \in Periods : EndBlock(p)
 GenSpec == Init /\ [][GenNext]_vars
 
@@ -42,6 +43,7 @@ BondSliceNext ==
               /\ (\A t \in Targets : b[t] > 0 => HasBase(t)) = TRUE
               /\ SetBond(a, b)
         \/ \E a \in Accts, d \in Vecs : stake[a] > 0 /\ d # deleg[a] /\ SumVec(d) <= 1 /\ SetDelegation(a, d)
+        \/ \E t \in Targets : HasBase(t) /\ Active(t) /\ Disqualify(t)
         \/ \E p \in Periods : EndBlock(p)
 BondSliceSpec == Init /\ [][BondSliceNext]_vars
 ====
